@@ -862,9 +862,10 @@ end examples
 section span
 
 /-- `parseBlocks_para_nested` in terms of the document configuration: a one-line paragraph document `l` (tab-free,
-    no terminator, starting with a non-blank character; block parse `Root[Paragraph[InlineRoot c m]]`) wrapped in
-    `w` has the block tree `wrapForest w` around the paragraph — or around the bare placeholder in a (tight) list
-    item — whose inline text is the SAME `c`, per-line table moved by the prefixes' width. -/
+    no terminator, starting with a non-blank character; block parse `Root[Paragraph[InlineRoot c m]]`, the run ending
+    `tight`) wrapped in `w` has the block tree `wrapForest w` around the paragraph — or, exactly when the innermost
+    wrapper is a list item (`tightOf w`), around the bare placeholder — whose inline text is the SAME `c`, per-line
+    table moved by the prefixes' width. -/
 theorem doc_para_blocks_nested (cfg : DocCfg) (c : List Char) (m : List (Nat × Nat)) (a : Nat) (l : List Char)
     (g : Good [l]) (hf : FirstLineOk l) (ha : a ≤ Lines.byteLen l) (hm : ∀ kv ∈ m, kv.2 ≤ Lines.byteLen l)
     (w : List Wrapper) (hw : ∀ x ∈ w, x.Ok) (hch : ChainFor cfg.blockChain w)
@@ -872,20 +873,23 @@ theorem doc_para_blocks_nested (cfg : DocCfg) (c : List Char) (m : List (Nat × 
     (hmn : depthCost w < cfg.maxNesting)
     (hsize : Lines.byteLen (wrapAll w l) + 20 < 2147483648)
     (hbase : parseBlocks { cfg.blockCfg with maxNesting := cfg.maxNesting - depthCost w } l =
-      .ok (⟨.root, some (0, Lines.byteLen l), [⟨.paragraph, some (a, Lines.byteLen l), [⟨.inlineRoot c m, none, []⟩]⟩]⟩, [])) :
+      .ok (⟨.root, some (0, Lines.byteLen l), [⟨.paragraph, some (a, Lines.byteLen l), [⟨.inlineRoot c m, none, []⟩]⟩]⟩, []))
+    (htight : ∀ t, tokenize { cfg.blockCfg with maxNesting := cfg.maxNesting - depthCost w }
+      (fuelFor { cfg.blockCfg with maxNesting := cfg.maxNesting - depthCost w } l) (BState.fresh l .root []) = .ok t →
+        t.tight = true) :
     wrapAll w l = firstLine w l ∧
-    ∃ tg, parseBlocks cfg.blockCfg (wrapAll w l) =
+    parseBlocks cfg.blockCfg (wrapAll w l) =
       .ok (⟨.root, some (0, Lines.byteLen (wrapAll w l)),
             wrapForest (Lines.byteLen (wrapAll w l)) w 0
-              (paraLeaf c m a (widthAll w) (Lines.byteLen (wrapAll w l)) tg)⟩, []) := by
+              (paraLeaf c m a (widthAll w) (Lines.byteLen (wrapAll w l)) (tightOf w))⟩, []) := by
   have hdoc : wrapAll w l = firstLine w l := by
     have := wrapAll_docOf hw g
     rwa [wrapAllLines_single, docOf_single, docOf_single] at this
   refine ⟨hdoc, ?_⟩
   rw [hdoc] at hsize ⊢
   have := parseBlocks_para_nested { cfg.blockCfg with maxNesting := cfg.maxNesting - depthCost w }
-    (by show 0 < cfg.maxNesting - depthCost w; omega) c m a l g hf ha hm (by rw [docOf_single]; exact hbase) w hw hch hhr
-    (by rw [docOf_single]; exact hsize)
+    (by show 0 < cfg.maxNesting - depthCost w; omega) c m a l g hf ha hm (by rw [docOf_single]; exact hbase)
+    (by rw [docOf_single]; exact htight) w hw hch hhr (by rw [docOf_single]; exact hsize)
   rw [blockCfg_nest cfg _ hmn] at this
   simpa only [docOf_single] using this
 
@@ -918,12 +922,13 @@ end
 def spanLine : List Char := "a<`` `*x` ``>b".toList
 
 /-- the hypotheses of `doc_para_blocks_nested` hold for `spanLine` in a quote in a bullet item on the stock chain:
-    the placeholder inside the containers holds the whole line as inline text, table `[(0, 4)]` -/
-example : ∃ tg, parseBlocks (exCfg false 100).blockCfg "- > a<`` `*x` ``>b".toList =
+    the placeholder inside the containers holds the whole line as inline text, table `[(0, 4)]`; the innermost
+    wrapper is the quote, so the paragraph stays -/
+example : parseBlocks (exCfg false 100).blockCfg "- > a<`` `*x` ``>b".toList =
     .ok (⟨.root, some (0, 18),
       [⟨.bulletList '-', some (0, 18), [⟨.listItem, some (0, 18),
         [⟨.blockquote, some (2, 18),
-          paraLeaf spanLine [(0, 0)] 0 4 18 tg⟩]⟩]⟩]⟩, []) := by
+          paraLeaf spanLine [(0, 0)] 0 4 18 false⟩]⟩]⟩]⟩, []) := by
   have hb : (match parseBlocks { (exCfg false 100).blockCfg with maxNesting := 100 - depthCost [.bullet '-', .quote] } spanLine with
       | .ok (n, refs) => beqN n ⟨.root, some (0, Lines.byteLen spanLine),
           [⟨.paragraph, some (0, Lines.byteLen spanLine), [⟨.inlineRoot spanLine [(0, 0)], none, []⟩]⟩]⟩ && refs.isEmpty
@@ -938,14 +943,20 @@ example : ∃ tg, parseBlocks (exCfg false 100).blockCfg "- > a<`` `*x` ``>b".to
       rw [h] at hb
       simp only [Bool.and_eq_true, List.isEmpty_iff] at hb
       rw [beqN_sound _ _ hb.1, hb.2]
-  obtain ⟨hdoc, tg, h⟩ := doc_para_blocks_nested (exCfg false 100) spanLine [(0, 0)] 0 spanLine
+  have ht : (match tokenize { (exCfg false 100).blockCfg with maxNesting := 100 - depthCost [.bullet '-', .quote] }
+      (fuelFor { (exCfg false 100).blockCfg with maxNesting := 100 - depthCost [.bullet '-', .quote] } spanLine)
+      (BState.fresh spanLine .root []) with
+      | .ok t => t.tight
+      | .error _ => true) = true := by decide +kernel
+  obtain ⟨hdoc, h⟩ := doc_para_blocks_nested (exCfg false 100) spanLine [(0, 0)] 0 spanLine
     ⟨by decide, by decide +kernel, by decide +kernel, by decide +kernel⟩ ⟨by decide +kernel, .inl (by decide +kernel)⟩
     (Nat.zero_le _) (by decide) [.bullet '-', .quote] (by decide) (chainFor_stock _)
     (fun _ => hrFree_of_mem (x := 'a') (by decide +kernel) (by decide) _) (by decide) (by decide +kernel) hbase
+    (fun t htk => by erw [htk] at ht; exact ht)
   have e1 : wrapAll [.bullet '-', .quote] spanLine = "- > a<`` `*x` ``>b".toList := by decide +kernel
   have e2 : Lines.byteLen "- > a<`` `*x` ``>b".toList = 18 := by decide +kernel
   rw [e1, e2] at h
-  exact ⟨tg, h⟩
+  exact h
 
 /-- what the whole pipeline does with it (by evaluation): the span's content, backtick and star included, verbatim -/
 example : renderDoc false (exCfg false 100) "- > a<`` `*x` ``>b".toList =
@@ -966,6 +977,7 @@ OPEN: `doc_span_verbatim_nested` — the code-span context of C11 inside contain
       ∃ before after, renderDoc x cfg (wrapAll w l) =
         .ok (wrapHtml w (<p>? ++ before ++ "<code>" ++ escape_html T ++ "</code>" ++ after ++ </p>? ++ "\n"))
 
+  (Since proved, for plain `pre` / `post`: `MdIt/Props/C11Span.lean`.)
   Proved here: the BLOCK half — `doc_para_blocks_nested` / `parseBlocks_para_nested`: inside the containers the
   placeholder `InlineRoot` holds exactly the inline text `c` it holds at top level (for a one-line paragraph: the
   line), so every statement about `Inline.parseInline icfg c _` made at top level applies verbatim; the rule-level
